@@ -246,3 +246,12 @@ package blockstore
 //@ func maybeReportError
 //@   note hands the error to the handler found in the context, if any; touches nothing else
 //@   ensures any [C08]: true
+
+//@ func (*ReadWrite).DeleteBlock
+//@   ensures unsupported_and_without_effect [C04]: err != nil
+
+//@ func (*ReadWrite).HashOnRead
+//@   ensures without_effect_on_the_session [C04]: b.finalized == old(b.finalized) && b.ronly.closed == old(b.ronly.closed)
+
+//@ func (*ReadOnly).HashOnRead
+//@   ensures without_effect [C04]: b.closed == old(b.closed)
